@@ -331,11 +331,28 @@ def readStep (st : RdState) (s : Nat) : RdState × Bytes × RErr :=
     | (none, e, rest) => ({ conn := rest, buf := [] }, [], e)
   else ({ st with buf := st.buf.drop s }, st.buf.take s, .nil)
 
-def readSteps (conn : Bytes) (sizes : List Nat) : List (Nat × RErr) × Bytes :=
-  let r := sizes.foldl (fun (acc : RdState × List (Nat × RErr) × Bytes) s =>
-    let (st', d, e) := readStep acc.1 s
-    (st', acc.2.1 ++ [(d.length, e)], acc.2.2 ++ d)) (⟨conn, []⟩, [], [])
-  r.2
+def stepsFrom : RdState → List Nat → List (Nat × RErr) × Bytes
+  | _, [] => ([], [])
+  | st, s :: ss =>
+    let r1 := readStep st s
+    let r := stepsFrom r1.1 ss
+    ((r1.2.1.length, r1.2.2) :: r.1, r1.2.1 ++ r.2)
+
+/-- the `(n, err)` results of the successive `Read(p)` calls with `len(p) = sizes[i]`, and all bytes delivered -/
+def readSteps (conn : Bytes) (sizes : List Nat) : List (Nat × RErr) × Bytes := stepsFrom ⟨conn, []⟩ sizes
+
+/-- the records drained one after the other: all contents up to the first error, and that error -/
+def drain : Nat → Bytes → Bytes × RErr
+  | 0, _ => ([], .eof)
+  | f + 1, conn =>
+    match recRead conn with
+    | (some c, _, rest) => let r := drain f rest; (c ++ r.1, r.2)
+    | (none, e, _) => ([], e)
+
+def toEnd : RErr → End
+  | .ver => .ver
+  | .short => .short
+  | _ => .eof
 
 /-! ### io.Copy(stdin writer, body) through bfe_bufio.Writer.ReadFrom with a body reader that returns the body in pieces
 
